@@ -365,8 +365,10 @@ class Fit(Contract):
            "another flow remains (known findings: refit without overwrite keeps the old flow; refit leaves an older checkpoint in place)")
 
     def shapes(self):
-        return [{"ck": ck, "file_flow": ff, "file_ckpt": fc, "overwrite": ow, "file_config": cfg} for ck in ("none", "explicit", "defaults") for ff in (0, 1) for fc in (0, 1)
-                for ow in (0, 1) for cfg in (0, 1) if not (ck == "none" and (ff or fc or cfg or ow)) and not (fc and not ff)]
+        # `last`: the sampler type of the instance's last sampling call (None: the instance has not sampled; an instance rebuilt by resume_from_file
+        # carries the type stored in the file, see ResumeFromFile)
+        return [{"ck": ck, "file_flow": ff, "file_ckpt": fc, "overwrite": ow, "file_config": cfg, "last": last} for ck in ("none", "explicit", "defaults") for ff in (0, 1) for fc in (0, 1)
+                for ow in (0, 1) for cfg in (0, 1) for last in (None, "smc") if not (ck == "none" and (ff or fc or cfg or ow)) and not (fc and not ff)]
 
     def setup(self, I, shape):
         flow = flow_obj("before_fit")
@@ -380,7 +382,10 @@ class Fit(Contract):
         reg.handlers["FlowStub2.fit"] = flow_fit
         a = Obj("Aspire", {"_flow": flow, "_sampler": NONE, "xp": Sym(z3.Const("aspire_xp", Misc), "ns"), "parameters": Sym(z3.Const("aspire_parameters", Misc), "params")})
         a.absent.add("_checkpoint_defaults")
-        a.absent.add("_last_sampler_type")
+        if shape["last"]:
+            a.f["_last_sampler_type"] = Str(shape["last"])
+        else:
+            a.absent.add("_last_sampler_type")
         smp = Obj("Samples", {"x": base_arr("train_x", "row"), "xp": a.f["xp"], "parameters": a.f["parameters"]})
         path = Str("run.h5")
         kw = {}
@@ -421,6 +426,11 @@ class Fit(Contract):
         if "checkpoint" in mem and "flow" in mem:
             p.prove(mem["flow"].f["ver"].e == mem["checkpoint"].f["flow_ver"].e,
                     f"{q}:C14:J2 no checkpoint weighted under another proposal remains next to the stored flow [stale checkpoint after refit] {tag}")
+        if "checkpoint" in mem and "aspire_config" in mem:
+            st = mem["aspire_config"].f.get("sampler_type")
+            who = "config rewritten by an instance that has not sampled" if not sh["last"] else f"instance last sampled with {sh['last']}"
+            p.prove(z3.BoolVal(isinstance(st, Str) and SAMPLER_TYPES.get(st.v) == mem["checkpoint"].f["sampler_cls"].v),
+                    f"{q}:C14:J2 the configuration next to a stored checkpoint still names the sampler that wrote it [{who}] {tag}")
         closes = [e for e in p.events if e[0] == "h5.close"]
         opens = [e for e in p.events if e[0] == "h5.open"]
         p.prove(z3.BoolVal(len(opens) == len(closes)), f"{q}:C12:the file is closed again")
@@ -604,7 +614,7 @@ class BuildAspireFromFileModel(Contract):
     def model(self, I, info, bound, args, kwargs, node):
         p = I.path
         a = Obj("Aspire", {"flow": Sym(z3.Const("loaded_flow", Misc), "flow")})
-        for k in ("_checkpoint_defaults", "_resume_from_default", "_resume_sampler_type", "_resume_n_samples", "_resume_overrides", "_resume_sampler_config"):
+        for k in ("_checkpoint_defaults", "_resume_from_default", "_resume_sampler_type", "_resume_n_samples", "_resume_overrides", "_resume_sampler_config", "_last_sampler_type"):
             a.absent.add(k)
         p.ghost["rebuilt"] = a
         if p.choose(2, "file-holds-a-checkpoint") == 1:
@@ -648,6 +658,11 @@ class ResumeFromFile(Contract):
             p.prove(to_int(d.d["every"]) == 1 if isinstance(d.d.get("every"), Z) else z3.BoolVal(False), f"{q}:C12:default cadence of the continued run is every iteration {tag}")
             for k in ("saved_config", "saved_flow"):
                 p.prove(z3.Not(I.truth(d.d[k])) if k in d.d else z3.BoolVal(False), f"{q}:C14:flag {k} starts cleared {tag}")
+        if has:
+            # the file's configuration named the sampler that wrote the checkpoint; a configuration this instance rewrites (fit inside a new
+            # automatic-checkpointing context) must keep naming it, and config_dict reports _last_sampler_type (ConfigDict)
+            lst = r.f.get("_last_sampler_type")
+            p.prove(z3.BoolVal(isinstance(lst, Str) and lst.v == "smc"), f"{q}:C14:the rebuilt instance carries the sampler type stored in the file, so a configuration it rewrites still names the sampler that wrote the checkpoint {tag}")
         primed = "_resume_from_default" in r.f and not isinstance(r.f["_resume_from_default"], NoneV)
         p.prove(z3.BoolVal(primed == bool(has)), f"{q}:C11:C12:the stored checkpoint is primed for the next sampling call exactly when the file holds one {tag}")
 
